@@ -110,7 +110,12 @@ def run(tier, repo):
                              expected="len(x) then x (or len(x)*w then w-byte elements of x)", found=json.dumps(nxt)[:200], why_ok="prefixes exactly the following %s" % ("bytes" if k == 1 else "%d-byte elements" % k))
         walk_g(g, chk)
     # TAG-AGREE with the parser's dispatch tables (read from the parser grammar of this same build)
-    hs, _ = code_seq(F, "tls_handshake::parse_tls_message_handshake")
+    from ..pir import Opaque as _Opaque
+    try:
+        hs, _ = code_seq(F, "tls_handshake::parse_tls_message_handshake")
+    except (_Opaque, KeyError) as o:
+        rp.fail("TAG-AGREE", "handshake-parser/unrecognised", "src/tls_handshake.rs", "the handshake dispatcher cannot be read: %s" % o)
+        hs = {"steps": [], "ret": None}
     arms = {}
     def find_sw(st, p):
         if st[0] == "switch" and not arms:
@@ -142,7 +147,10 @@ def run(tier, repo):
                              why_ok="type %s <-> %s in the parser dispatch" % (code, v))
         # ChangeCipherSpec message byte must pass the parser's check
         ccs_g = G.get("tls_serialize::gen_tls_changecipherspec")
-        raw = Ev(F).fn_seq("tls_message::parse_tls_message_changecipherspec")
+        try:
+            raw = Ev(F).fn_seq("tls_message::parse_tls_message_changecipherspec")
+        except (_Opaque, KeyError) as o:
+            raw = {"steps": [], "ret": None}
         ok = False
         why = "unreadable"
         if ccs_g and len(ccs_g) == 1 and ccs_g[0][0] == "emit" and ccs_g[0][1] == 8 and ccs_g[0][3][0] == "n" and raw["steps"] and raw["steps"][0][0] == "u":
@@ -162,7 +170,11 @@ def run(tier, repo):
             t = g2[0][3] if g2 and g2[0][0] == "emit" and g2[0][1] == 16 else None
             code = t[1] if t and t[0] == "n" else None
             # parser side: dispatcher arm for this type must build the same variant
-            ext, _ = code_seq(F, "tls_extensions::parse_tls_extension")
+            try:
+                ext, _ = code_seq(F, "tls_extensions::parse_tls_extension")
+            except (_Opaque, KeyError) as o:
+                rp.fail("TAG-AGREE", "extension-parser/unrecognised", "src/tls_extensions.rs", "the extension dispatcher cannot be read: %s" % o)
+                break
             built = {}
             def find_ext(st, p):
                 if st[0] == "switch" and not built:
@@ -248,6 +260,29 @@ def run(tier, repo):
             w = wskel(g[1][2])
             r = rskel(arms_seq[code])
             rp.check(w == r, "WRITER-READER", fn.split("::")[-1], "src/tls_serialize.rs", "field layout written by the serializer differs from what the parser reads", expected=r, found=w, why_ok="skeleton %s on both sides" % (w,))
+    # Serialize trait impls: serialize(&self) = gen_simple(<the generator of that type>(self), Vec::new())
+    rp.rule("SERIALIZE-IMPLS", "the Serialize impls of TlsMessageHandshake / TlsMessage / TlsPlaintext run the matching generator on self into a fresh vector")
+    from ..core import strip, path_of
+    want = {"tls_handshake::TlsMessageHandshake<'a>": "tls_serialize::gen_tls_messagehandshake", "tls_message::TlsMessage<'a>": "tls_serialize::gen_tls_message", "tls_record::TlsPlaintext<'a>": "tls_serialize::gen_tls_plaintext"}
+    seen = 0
+    for f in F.hir_fns():
+        if f.get("impl_trait_path") == "rusticata_macros::traits::Serialize" and f.get("name") == "serialize":
+            slf = f.get("impl_self")
+            b = strip(f["hir"])
+            ok = b["k"] == "call" and path_of(b["f"]) == "cookie_factory::internal::gen_simple" and len(b["args"]) == 2
+            if ok:
+                g, buf = strip(b["args"][0]), strip(b["args"][1])
+                ok = g["k"] == "call" and path_of(g["f"]) == want.get(slf) and len(g["args"]) == 1 and strip(g["args"][0]).get("k") == "local" and strip(g["args"][0])["name"] == "self" \
+                    and buf["k"] == "call" and path_of(buf["f"]) == "alloc::vec::Vec::<T>::new"
+            seen += 1
+            rp.check(ok, "SERIALIZE-IMPLS", slf.split("::")[-1].split("<")[0], site(f), "Serialize::serialize of %s is not gen_simple(%s(self), Vec::new())" % (slf, want.get(slf)), why_ok="runs %s on self" % want.get(slf))
+    rp.floor("serialize_impls", seen, 3)
+    # the reader side of the round trip: the parsers that read serializer output back must have the reference grammar
+    # (reference writers and reference readers are both written from the same RFC structures, so writer = W_ref and
+    # reader = R_ref together give the round trip at the level of structure)
+    from ..gcommon import grammar_rules
+    rp.rule("READER-GRAMMAR", "parse_tls_plaintext, parse_tls_message_handshake and parse_tls_extension (the parsers that read the serializer's output back) equal their reference grammars in the serialize build")
+    grammar_rules(rp, F, "C09", rule="READER-GRAMMAR")
     rp.floor("serializers", len(G), 11)
     rp.assume("cookie-factory 0.3.3: be_uN/slice/tuple/all/many_ref emit their arguments in order; gen(f, Vec::new()) returns the buffer and its length")
     rp.assume("wire-limit preconditions stated by the property: " + S.LIMITS + " (truncating casts `as u8`/`as u16` and `len() as u16 * 2` are exact within them)")
